@@ -23,12 +23,17 @@ type Params struct {
 	// ForceAt/ForceVar: the first cut is fixed (write ordinal after the client's first event, offset variant);
 	// the explorer places the remaining cuts. Used to shard two-cut scenarios.
 	ForceAt, ForceVar int
-	Preempt           int
-	Faults            int
+	// Expiry (ValidReplayer): TTL 2 s on the virtual clock; the publisher lets 3 s pass after its fifth event,
+	// so the next Put collects the whole buffer (the ring shrinks) while the client is connected.
+	Expiry bool
+	// Big: the second event carries ~6 KB of data (the client's scanner has to grow and compact its buffer).
+	Big     bool
+	Preempt int
+	Faults  int
 }
 
 func (p Params) Name() string {
-	return fmt.Sprintf("valid%v-cuts%s-killer%v-msgs%d-pb%d-fb%d-force%d.%d", p.Valid, p.Cuts, p.Killer, p.NMsg, p.Preempt, p.Faults, p.ForceAt, p.ForceVar)
+	return fmt.Sprintf("valid%v-cuts%s-killer%v-msgs%d-pb%d-fb%d-force%d.%d-expiry%v-big%v", p.Valid, p.Cuts, p.Killer, p.NMsg, p.Preempt, p.Faults, p.ForceAt, p.ForceVar, p.Expiry, p.Big)
 }
 
 type published struct {
@@ -46,6 +51,8 @@ type world struct {
 	ShutErr error
 	Kills   int
 }
+
+var bigData = strings.Repeat("0123456789abcdef", 380) // 6080 bytes
 
 func payload(k int, auto bool) (*sse.Message, published) {
 	m := &sse.Message{}
@@ -81,9 +88,13 @@ func body(p Params) func() {
 		vrt.SetUser(w)
 		var inner sse.Replayer
 		if p.Valid {
-			v, _ := sse.NewValidReplayer(time.Hour, true)
+			ttl := time.Hour
+			if p.Expiry {
+				ttl = 2 * time.Second
+			}
+			v, _ := sse.NewValidReplayer(ttl, true)
 			base := time.Date(2030, 1, 1, 0, 0, 0, 0, time.UTC)
-			v.Now = func() time.Time { return base }
+			v.Now = func() time.Time { return base.Add(time.Duration(vrt.Now())) }
 			inner = v
 		} else {
 			f, _ := sse.NewFiniteReplayer(8, false)
@@ -102,9 +113,13 @@ func body(p Params) func() {
 		if p.Valid {
 			lastID = fmt.Sprint(p.NMsg - 1)
 		}
+		gotFifth := vrt.MakeChan[struct{}](8)
 		conn.SubscribeToAll(func(e sse.Event) {
 			w.Got = append(w.Got, e)
 			w.Env.firstEvent.Poke(1)
+			if p.Expiry && e.LastEventID == "4" {
+				vrt.Send(gotFifth, struct{}{})
+			}
 			if e.LastEventID == lastID {
 				vrt.Send(caughtUp, struct{}{})
 			}
@@ -118,6 +133,17 @@ func body(p Params) func() {
 		pub := vrt.GoNamed("publisher", func() {
 			for k := 0; k < p.NMsg; k++ {
 				m, rec := payload(k, p.Valid)
+				if p.Big && k == 1 {
+					m = &sse.Message{ID: m.ID}
+					m.AppendData(bigData)
+					rec.Type, rec.Data = "", bigData
+				}
+				if p.Expiry && k == 5 {
+					// The replayer must be able to hold what is published while the client is away (the property's
+					// proviso): let time pass only once the client has everything published so far.
+					vrt.Recv(gotFifth)
+					vrt.Advance(int64(3 * time.Second)) // everything published so far expires
+				}
 				w.Pub = append(w.Pub, rec)
 				w.PubErr = append(w.PubErr, srv.Publish(m))
 			}
@@ -250,6 +276,7 @@ func Scenarios(tier string) []run.Scenario {
 			}
 		}
 		add(Params{Valid: valid, Killer: true, NMsg: 3, Preempt: 0, Faults: 0})
+		add(Params{Valid: valid, Cuts: "coarse", NMsg: 3, Preempt: 0, Faults: 1, Big: true})
 		add(Params{Valid: valid, NMsg: 3, Preempt: 1, Faults: 0})
 		if tier == "thorough" {
 			for at := 1; at <= 40; at++ {
@@ -261,6 +288,17 @@ func Scenarios(tier string) []run.Scenario {
 			add(Params{Valid: valid, Cuts: "coarse", NMsg: 3, Preempt: 1, Faults: 1})
 			add(Params{Valid: valid, Cuts: "coarse", Killer: true, NMsg: 3, Preempt: 0, Faults: 1})
 			add(Params{Valid: valid, Killer: true, NMsg: 4, Preempt: 1, Faults: 0})
+		}
+	}
+	// the ValidReplayer on a moving clock: its buffer grows to 8, everything expires, the next Put collects
+	// (one scenario per cut position, the explorer only interleaves)
+	add(Params{Valid: true, NMsg: 7, Preempt: 0, Faults: 0, Expiry: true})
+	for at := 1; at <= 64; at++ {
+		for v := 0; v <= 1; v++ {
+			if tier != "thorough" && (v == 1 || at < 26) {
+				continue // quick tier: cuts at the write boundaries around and after the expiry
+			}
+			add(Params{Valid: true, Cuts: "coarse", NMsg: 7, Preempt: 0, Faults: 0, Expiry: true, ForceAt: at, ForceVar: v})
 		}
 	}
 	return out
